@@ -86,7 +86,8 @@ def num(x, nt):
 
 
 STATS = {"built": 0, "touched": 0, "fallback": 0, "siblings": 0, "via_negation": 0, "lifts_from_points_with_a_past": 0,
-         "alias_moves": 0, "alias_reread_failed": 0}      # shared with props.common.HIST_STATS
+         "alias_moves": 0, "alias_reread_failed": 0, "lifts_with_caller_points_moved_afterwards": 0,
+         "lifts_through_Parallelepiped_builder": 0, "results_moved_by_the_caller": 0}      # shared with props.common.HIST_STATS
 
 
 def lift(d, rng=None, nt=float, form=None):
@@ -100,13 +101,27 @@ def lift(d, rng=None, nt=float, form=None):
     season = r is not None and k not in ("P", "VEC") and r.random() < 0.07
     if season:
         STATS["lifts_from_points_with_a_past"] += 1
+    # "the caller goes on using its Points": after the object has been built the caller's own Point objects are moved
+    # elsewhere.  (Not for Plane, which shares its point with the caller by design.)
+    argmove = r is not None and k in ("L", "H", "S", "PG", "PH") and r.random() < 0.05
+    mine = []
 
     def P(p):
         if r is not None and r.random() < 0.15:
             pt = G.Point([num(c, nt) for c in p])
         else:
             pt = G.Point(num(p[0], nt), num(p[1], nt), num(p[2], nt))
-        if season and r.random() < 0.6:
+        if season and r.random() < 0.3:
+            # ... or the Point was something else first: hashed and compared there, then given its coordinates by item
+            # assignment
+            try:
+                pt = G.Point(float(p[0]) + 1.0, float(p[1]) - 0.5, float(p[2]) + 2.0)
+                hash(pt), pt == pt, {pt}
+                for i in range(3):
+                    pt[i] = num(p[i], nt)
+            except Exception:
+                pass
+        elif season and r.random() < 0.6:
             w = G.Vector(*r.choice(((0.5, -1.0, 2.0), (-2.0, 0.25, 1.0), (1.0, 3.0, -0.5))))
             try:
                 G.Line(pt, G.Vector(1.0, 2.0, 2.0)).move(w)
@@ -115,7 +130,18 @@ def lift(d, rng=None, nt=float, form=None):
                 G.HalfLine(pt, G.Vector(-1.0, 0.5, 1.0)).move(w)
             except Exception:
                 pass
+        mine.append(pt)
         return pt
+
+    def done(o):
+        if argmove and mine:
+            STATS["lifts_with_caller_points_moved_afterwards"] += 1
+            for j, q in enumerate(mine):
+                try:
+                    q.move(G.Vector(1.0 + j, -2.0, 0.5 * j + 0.5))
+                except Exception:
+                    pass
+        return o
 
     def Vv(p):
         return G.Vector(num(p[0], nt), num(p[1], nt), num(p[2], nt))
@@ -126,20 +152,20 @@ def lift(d, rng=None, nt=float, form=None):
     if k == "L":
         f = form if form is not None else (r.randrange(3) if r else 0)
         if f == 0:
-            return G.Line(P(d[1]), Vv(d[2]))
+            return done(G.Line(P(d[1]), Vv(d[2])))
         if f == 1:
-            return G.Line(P(d[1]), P(K.add(d[1], d[2])))
+            return done(G.Line(P(d[1]), P(K.add(d[1], d[2]))))
         return G.Line(Vv(d[1]), Vv(d[2]))
     if k == "H":
         f = form if form is not None else (r.randrange(2) if r else 0)
         if f == 0:
-            return G.HalfLine(P(d[1]), Vv(d[2]))
-        return G.HalfLine(P(d[1]), P(K.add(d[1], d[2])))
+            return done(G.HalfLine(P(d[1]), Vv(d[2])))
+        return done(G.HalfLine(P(d[1]), P(K.add(d[1], d[2]))))
     if k == "S":
         f = form if form is not None else (r.randrange(2) if r else 0)
         if f == 0:
-            return G.Segment(P(d[1]), P(d[2]))
-        return G.Segment(P(d[1]), Vv(K.sub(d[2], d[1])))
+            return done(G.Segment(P(d[1]), P(d[2])))
+        return done(G.Segment(P(d[1]), Vv(K.sub(d[2], d[1]))))
     if k == "PL":
         f = form if form is not None else (r.randrange(4) if r else 0)
         if f == 0:
@@ -166,9 +192,18 @@ def lift(d, rng=None, nt=float, form=None):
         pg = G.ConvexPolygon(tuple(P(v) for v in vs))
         if r is not None and r.random() < 0.12:
             pg = -pg                      # the same set, obtained as the negation of a polygon
-        return pg
+        return done(pg)
     if k == "PH":
         faces = list(d[2])
+        if r is not None and r.random() < 0.3:
+            pp = parallelepiped_of(d)
+            if pp is not None:
+                # a parallelepiped may as well come from the library's own builder (any corner, any order of the edges)
+                STATS["lifts_through_Parallelepiped_builder"] += 1
+                base, es = r.choice(pp)
+                es = list(es)
+                r.shuffle(es)
+                return G.Parallelepiped(P(base), *[Vv(e) for e in es])
         if r is not None:
             r.shuffle(faces)
         polys = []
@@ -183,8 +218,32 @@ def lift(d, rng=None, nt=float, form=None):
             if r is not None and r.random() < 0.08:
                 fpg = -fpg
             polys.append(fpg)
-        return G.ConvexPolyhedron(tuple(polys))
+        return done(G.ConvexPolyhedron(tuple(polys)))
     raise ValueError(k)
+
+
+def parallelepiped_of(d):
+    """for a PH descriptor that is a parallelepiped: list of (corner, (e1, e2, e3)) for every corner; else None"""
+    vs = d[1]
+    if len(vs) != 8 or len(d[2]) != 6 or any(len(f) != 4 for f in d[2]):
+        return None
+    nb = {v: set() for v in vs}
+    for f in d[2]:
+        for i in range(4):
+            a, b = f[i], f[(i + 1) % 4]
+            nb[a].add(b)
+            nb[b].add(a)
+    out = []
+    vset = set(vs)
+    for b in vs:
+        if len(nb[b]) != 3:
+            return None
+        es = tuple(K.sub(q, b) for q in sorted(nb[b]))
+        combos = {K.add(b, K.add(K.mul(es[0], i), K.add(K.mul(es[1], j), K.mul(es[2], k)))) for i in (0, 1) for j in (0, 1) for k in (0, 1)}
+        if combos != vset:
+            return None
+        out.append((b, es))
+    return out
 
 
 def plane_basis(n):
